@@ -165,6 +165,35 @@ theorem step_inv (s s' : LState) (a : Act) (h : Inv s) (hs : lstep s a = some s'
       refine ⟨fun _ => Or.inl rfl, h.others, ?_, h.matched⟩
       intro t' ht'; rw [hn] at ht'; cases ht'
     · cases hs
+  | quit t =>
+    simp only [lstep] at hs
+    split at hs
+    · rename_i hc
+      have hw : s.pcs t = .waiting := by simpa [pcOf] using hc
+      cases hs
+      have hnot : s.holder ≠ some t := by
+        intro hh
+        rcases h.holderPc t hh with ⟨hl, _⟩ | ⟨hl, _⟩ <;> rw [hw] at hl <;> cases hl
+      refine ⟨?_, ?_, ?_, ?_⟩
+      · intro hf
+        have := h.free (by simpa [setPc] using hf)
+        simpa [clean, setPc] using this
+      · intro t' ht'
+        by_cases e : t' = t
+        · subst e; right; exact ⟨none, by simp [setPc]⟩
+        · simp only [setPc, e, ↓reduceIte]
+          exact h.others t' (by simpa [setPc] using ht')
+      · intro t' ht'
+        have ht'' : s.holder = some t' := by simpa [setPc] using ht'
+        have e : t' ≠ t := fun e => hnot (e ▸ ht'')
+        rcases h.holderPc t' ht'' with ⟨hl, hc2⟩ | ⟨hl, hp⟩
+        · left; exact ⟨by simp [setPc, e, hl], by simpa [clean, setPc] using hc2⟩
+        · right; exact ⟨by simp [setPc, e, hl], by simpa [setPc] using hp⟩
+      · intro t' x hx
+        by_cases e : t' = t
+        · subst e; simp [setPc] at hx
+        · simp only [setPc, e, ↓reduceIte] at hx; exact h.matched t' x hx
+    · cases hs
 
 theorem run_inv : ∀ (acts : List Act) (s s' : LState), Inv s → lrun s acts = some s' → Inv s'
   | [], s, s', h, hr => by simp [lrun] at hr; subst hr; exact h
@@ -213,7 +242,17 @@ theorem abandon_breaks_matching :
       lrun s2 [.acquire 2, .write 2, .readOk 2] = some s3 ∧ s3.pcs 2 = .done (some 1) := by
   refine ⟨_, _, _, rfl, rfl, rfl, rfl⟩
 
+/-- the seeded variant of C11-m5 (a caller that gives up while waiting releases the holder's lock) breaks serialisation:
+    a second caller acquires the lock and writes while the first one's exchange is still in progress, and is handed the
+    reply to the first one's request -/
+theorem quitUnlocking_breaks_serialisation :
+    ∃ s1 s2 s3, lrun {} [.acquire 1, .write 1] = some s1 ∧ quitUnlocking s1 3 = some s2 ∧
+      lrun s2 [.acquire 2] = some s3 ∧ s3.pcs 1 = .written ∧ s3.holder = some 2 := by
+  refine ⟨_, _, _, rfl, rfl, rfl, rfl, rfl⟩
+
 /-! non-vacuity: two callers, the first times out and retries, the second waits for the lock -/
+example : ((lrun {} [.acquire 1, .write 1, .quit 3, .readOk 1, .acquire 2, .write 2, .readOk 2]).map
+    fun s => (s.pcs 1, s.pcs 2, s.pcs 3)) = some (.done (some 1), .done (some 2), .done none) := by decide
 example : ((lrun {} [.acquire 1, .write 1, .readFail 1, .write 1, .readOk 1, .acquire 2, .write 2, .readOk 2]).map
     fun s => (s.pcs 1, s.pcs 2)) = some (.done (some 1), .done (some 2)) := by decide
 
